@@ -1,33 +1,34 @@
 package main
 
 import (
-	"encoding/json"
+	"context"
 	"fmt"
-	"os"
+	"time"
 
-	"verif/harness/check"
+	"github.com/prometheus/prometheus/promql"
+
 	"verif/harness/core"
+	"verif/harness/gen"
 )
 
 func main() {
-	b, _ := os.ReadFile(os.Args[1])
-	var f check.Failure
-	json.Unmarshal(b, &f)
-	cs := *f.Case
-	cs.NDist = 0
-	cs.Dist = nil
-	st, _ := core.BuildStore(cs.Data)
-	ref := core.RunRef(&cs, st)
-	bad := map[string]int{}
-	for i := 0; i < 2000; i++ {
-		out := core.RunEngine(&cs, st)
-		if s, d := core.Diff(ref, out.Res, false); s != "" {
-			bad["central:"+s+" "+d]++
+	st, _ := core.BuildStore([]core.SeriesSpec{
+		gen.Regular(`a{l="0",m="0"}`, 0, 30000, 10, 1, 1), gen.Regular(`a{l="0",m="1"}`, 0, 30000, 10, 10, 2), gen.Regular(`a{l="1"}`, 0, 30000, 10, 100, 0.5)})
+	eng := promql.NewEngine(promql.EngineOpts{MaxSamples: 1e7, Timeout: time.Minute})
+	run := func() (*promql.Result, promql.Query) {
+		q, err := eng.NewRangeQuery(st, nil, `count_values("v", a)`, time.UnixMilli(10000), time.UnixMilli(340000), 30*time.Second)
+		if err != nil {
+			panic(err)
 		}
-		out2 := core.RunEngine(f.Case, st)
-		if s, d := core.Diff(ref, out2.Res, false); s != "" {
-			bad["dist:"+s+" "+d]++
-		}
+		return q.Exec(context.Background()), q
 	}
-	fmt.Println(bad)
+	r1, q1 := run()
+	s1 := core.Canon(r1).String()
+	r2, q2 := run()
+	s1b := core.Canon(r1).String()
+	fmt.Println("first result unchanged after a second query (both open):", s1 == s1b)
+	fmt.Println("second equals first:", core.Canon(r2).String() == s1)
+	q1.Close()
+	q2.Close()
+	_ = q2
 }
